@@ -35,6 +35,12 @@ def configs(tier):
           cfg("ROWWISE", loads=big), cfg("ROWWISE", loads=tiny, design={"continue_if_design_unmet": True}),
           cfg("BIZONEDRECTANGLE", loads=big, design={"continue_if_design_unmet": True}),
           cfg("BIRECTANGLECONSTRAINED", loads=big, design={"continue_if_design_unmet": True})]
+    # a manager whose design object was created for another height window / policy; only the simulation parameters are set again
+    rw = cfg(months=12, loads={"kind": "balanced", "scale": 20000.0, "seed": 3}, geom_over={"min_height": 30.0, "max_height": 60.0})
+    rw["_changed_after_design"] = {"section": "geometric_constraints", "values": {"min_height": 50.0, "max_height": 100.0}, "design_found_first": True}
+    rp = cfg(loads=big, design={"continue_if_design_unmet": True})
+    rp["_changed_after_design"] = {"section": "design", "values": {"continue_if_design_unmet": False}, "design_found_first": True}
+    cs += [rw, rp]
     # RowWise borehole-removal path: the sparsest field suffices, smaller sub-fields may or may not
     cs += [rowwise_small_cfg(sc) for sc in ([9000.0, 14000.0, 22000.0] if tier == "quick" else [6000.0, 9000.0, 12000.0, 14000.0, 18000.0, 22000.0, 26000.0, 30000.0])]
     if tier != "quick":
